@@ -121,7 +121,10 @@ func (vr *TestDownstreamFragmentSizeResponse) Decode(e enc.Encoder, response []b
 	if status&1 != 0 {
 		// Error flag raised
 		str, err := data.ReadString(0)
-		if err != io.EOF {
+		if err == nil {
+			// the error text runs to the end of the answer; a NUL inside it is not something the server writes
+			return errors.Errorf("Malformed error text in the response")
+		} else if err != io.EOF {
 			return errors.WithStack(err)
 		}
 		for _, e := range BadErrors {
